@@ -134,10 +134,23 @@ func runDefault(o *Out, spec *Spec, r *Ref, m *MethodSpec) {
 		bad := func(kind, why string) {
 			addViol(Violation{Kind: kind, Method: m.Name, ValueI: i, Detail: why, Source: srcStr, Got: Format(got), Want: "FUNC value " + startStr})
 		}
-		srcNil := S.Kind() == reflect.Ptr && src.IsNil()
+		srcNil := (S.Kind() == reflect.Ptr || S.Kind() == reflect.Slice || S.Kind() == reflect.Map) && src.IsNil()
 		if srcNil {
 			if ok, p := Equal(got, start); !ok {
-				bad("default_nil_source", "nil source pointer must return FUNC's result unchanged, differs at "+p)
+				bad("default_nil_source", "nil source must return FUNC's result unchanged, differs at "+p)
+			}
+			continue
+		}
+		if TS.Kind() == reflect.Slice || TS.Kind() == reflect.Map {
+			// a non-nil container is converted as usual
+			want, err := r.Method(&MethodSpec{Name: m.Name, Roles: m.Roles, Flags: m.Flags}, src, T)
+			if err != nil {
+				ev.Abstained++
+				ev.AbstainWhy = err.Error()
+				continue
+			}
+			if ok, p := Equal(out, want); !ok {
+				bad("value", "non-nil source container must be converted, differs at "+p)
 			}
 			continue
 		}
